@@ -15,7 +15,8 @@ targets = []
 for d in sorted((V / "seeded").glob("C*-*")):
     pid = d.name.split("-")[0]
     if (not ids or pid in ids) and (V / "vf" / "props" / f"{pid.lower()}.py").exists():
-        targets.append((d.name, pid, d / "patch.diff"))
+        pr = d / "patch_rebased.diff"
+        targets.append((d.name, pid, pr if pr.exists() else d / "patch.diff"))
 if "--mutants" in sys.argv:
     for d in sorted((V / "mutants").glob("C*")):
         pid = d.name
